@@ -172,7 +172,11 @@ func genAlertJob(r *rand.Rand, n int, tier string) []string {
 				sprinkle()
 			}
 		}
-		out = append(out, fmt.Sprintf("aj %d %d %d %s", w0, i0, cool, strings.Join(ops, " ")))
+		kind := "aj"
+		if r.Intn(4) == 0 {
+			kind = "ajm" // the same life of a Metrics alert
+		}
+		out = append(out, fmt.Sprintf("%s %d %d %d %s", kind, w0, i0, cool, strings.Join(ops, " ")))
 	}
 	return out
 }
@@ -225,10 +229,22 @@ func parseAjOp(s string) (ajOp, bool) {
 	return ajOp{}, false
 }
 
+// ajMetricsQuery: the metrics query of a Metrics alert (what the UI posts as metricsQueryParams); `n` varies the
+// metric name so that an update carries a query that differs from the stored one
+func ajMetricsQuery(n int) string {
+	return fmt.Sprintf(`{"start":"now-5m","end":"now","queries":[{"name":"a","query":"avg by (host) (verif_metric_%d)","qlType":"promql"}],"formulas":[{"formula":"a"}]}`, n)
+}
+
+var ajMetricsSeq int
+
 func ajAlertBody(name string, window, interval uint64, id string) []byte {
+	return ajTypedBody(name, uint64(alertutils.AlertTypeLogs), window, interval, id)
+}
+
+func ajTypedBody(name string, ty, window, interval uint64, id string) []byte {
 	m := map[string]interface{}{
 		"alert_name":    name,
-		"alert_type":    alertutils.AlertTypeLogs,
+		"alert_type":    ty,
 		"contact_id":    alertContactID,
 		"queryParams":   map[string]string{"data_source": "Logs", "queryLanguage": "Splunk QL", "queryText": "* | stats count", "startTime": "now-5m", "endTime": "now", "index": "*", "queryMode": "Builder"},
 		"condition":     alertutils.IsAbove,
@@ -240,8 +256,30 @@ func ajAlertBody(name string, window, interval uint64, id string) []byte {
 	if id != "" {
 		m["alert_id"] = id
 	}
+	if ty == uint64(alertutils.AlertTypeMetrics) {
+		ajMetricsSeq++
+		m["metricsQueryParams"] = ajMetricsQuery(ajMetricsSeq)
+	}
 	b, _ := json.Marshal(m)
 	return b
+}
+
+// ajCheckJob: the cron job of an alert runs the evaluator of the alert's type, every EvalInterval minutes
+func ajCheckJob(id string, ty alertutils.AlertType, interval uint64, fail func(sig, msg string), where string) {
+	secs, fn, err := alertsHandler.VerifJobSchedule(id)
+	if err != nil {
+		return // the number of jobs is judged elsewhere
+	}
+	want := "evaluateLogAlert"
+	if ty == alertutils.AlertTypeMetrics {
+		want = "evaluateMetricsAlert"
+	}
+	if !strings.HasSuffix(fn, "."+want) {
+		fail("alert-job/wrong-evaluator", fmt.Sprintf("%s: the job of an alert of type %d runs %s, expected %s", where, ty, fn, want))
+	}
+	if interval > (1<<63)/60 || secs != int64(interval*60) {
+		fail("alert-job/job-interval-differs-from-definition", fmt.Sprintf("%s: eval_interval is %d minutes, the cron job runs every %d seconds", where, interval, secs))
+	}
 }
 
 func ajPost(h func(*fasthttp.RequestCtx), body []byte) int {
@@ -266,8 +304,12 @@ func execAlertJobLine(line string) Result {
 	if len(f) >= 1 && f[0] == "ajs" {
 		return execAlertSet(f[1:])
 	}
-	if len(f) < 4 || f[0] != "aj" {
+	if len(f) < 4 || (f[0] != "aj" && f[0] != "ajm") {
 		return Result{Out: "bad-op"}
+	}
+	ty := uint64(alertutils.AlertTypeLogs)
+	if f[0] == "ajm" {
+		ty = uint64(alertutils.AlertTypeMetrics)
 	}
 	var nums [3]uint64
 	for i := 0; i < 3; i++ {
@@ -297,7 +339,7 @@ func execAlertJobLine(line string) Result {
 	org := int64(100000 + alertSeq)
 	name := fmt.Sprintf("verif-aj-%d", alertSeq)
 
-	if st := ajPost(func(c *fasthttp.RequestCtx) { alertsHandler.ProcessCreateAlertRequest(c, org) }, ajAlertBody(name, window, interval, "")); st != 200 {
+	if st := ajPost(func(c *fasthttp.RequestCtx) { alertsHandler.ProcessCreateAlertRequest(c, org) }, ajTypedBody(name, ty, window, interval, "")); st != 200 {
 		return Result{Out: fmt.Sprintf("harness-error:create-alert:%d", st)}
 	}
 	alertsHandler.VerifJobQuiesce()
@@ -317,6 +359,10 @@ func execAlertJobLine(line string) Result {
 	var res Result
 	var toks []string
 	tags := map[string]bool{}
+	if ty == uint64(alertutils.AlertTypeMetrics) {
+		tags["metrics-alert"] = true
+	}
+	curInterval := interval
 	// --- the property statement, tracked independently of the model, in simulated minutes
 	n := window / interval // N of the DEFINITION (changes with accepted edits)
 	var silence uint64     // silence minutes of the definition (changes with accepted silence requests)
@@ -357,8 +403,13 @@ func execAlertJobLine(line string) Result {
 			fail("alert-job/not-exactly-one-job", fmt.Sprintf("after %s: %v", prefix, err))
 			return fmt.Sprintf("jobs=%d", alertsHandler.VerifJobCount(id)), false
 		}
+		if uint64(j.AlertType) != ty {
+			fail("alert-job/wrong-evaluator", fmt.Sprintf("after %s: the job holds an alert of type %d, the alert was created with type %d", prefix, j.AlertType, ty))
+		}
+		ajCheckJob(id, alertutils.AlertType(ty), curInterval, fail, "after "+prefix)
 		return fmt.Sprintf("%s%d/%d", prefix, j.EvalWindow, j.EvalInterval), true
 	}
+	ajCheckJob(id, alertutils.AlertType(ty), curInterval, fail, "after create")
 
 	for idx, op := range ops {
 		switch op.kind {
@@ -383,8 +434,22 @@ func execAlertJobLine(line string) Result {
 			continue
 		case 'U':
 			at := dbState()
-			st := ajPost(alertsHandler.ProcessUpdateAlertRequest, ajAlertBody(name, op.w, op.i, id))
+			body := ajTypedBody(name, ty, op.w, op.i, id)
+			st := ajPost(alertsHandler.ProcessUpdateAlertRequest, body)
 			alertsHandler.VerifJobQuiesce()
+			if st == 200 {
+				curInterval = op.i
+				if ty == uint64(alertutils.AlertTypeMetrics) {
+					// keyed store: an accepted update is what a read returns — the metrics query included
+					var sent struct {
+						Q string `json:"metricsQueryParams"`
+					}
+					_ = json.Unmarshal(body, &sent)
+					if a, err := alertsHandler.VerifGetAlert(id); err == nil && a.MetricsQueryParamsString != sent.Q {
+						fail("alert-update/metrics-query-not-stored", fmt.Sprintf("op %d: the update of the Metrics alert was accepted, but a read returns the metrics query it had before (sent %s, stored %s)", idx+1, sent.Q, a.MetricsQueryParamsString))
+					}
+				}
+			}
 			if st != 200 {
 				toks = append(toks, "U!")
 				tags["edit-refused"] = true
@@ -546,7 +611,7 @@ func execAlertJobLine(line string) Result {
 
 // ---------------------------------------------------------------- second line kind: the SET of alerts and their jobs
 // ajs <op> ...   (Lean: Model/AlertSet.lean)   alerts are numbered by create attempt 1, 2, …
-//   c<w>/<i> create (Logs) | k<type> create with alert_type <type>, window 1, interval 1 | u<k>:<w>/<i> update | d<k> delete
+//   c<w>/<i> create (Logs) | m<w>/<i> create (Metrics) | k<type> create with alert_type <type>, window 1, interval 1 | u<k>:<w>/<i> update | d<k> delete
 //   z<k> / y<k>  the row of alert k is rewritten behind the API to interval 0 / alert_type 0 (a row an older version left)
 //   R restart
 // → per op  <ok|ref|->|<stored rows k:w/i:type>|<job tags ascending, one per job>
@@ -560,6 +625,12 @@ func genAlertSetLine(r *rand.Rand) string {
 	created := 0
 	def := func() string { // a definition: mostly acceptable, else one of the refused shapes
 		switch x := r.Intn(100); {
+		case x < 6:
+			// the longest interval that fits the scheduler's time.Duration (accepted), and two that do not: int(i*60) is
+			// negative / wraps around 2^64 to 44 s.  (Intervals whose seconds overflow only the Duration are NOT generated:
+			// before patch c20-17 such a job fires at once, inside the harness process.)
+			i := []string{"153722867", "153722867280912931", "307445734561825861"}[r.Intn(3)]
+			return i + "/" + i
 		case x < 60:
 			i := 1 + r.Intn(3)
 			return fmt.Sprintf("%d/%d", i*(1+r.Intn(3))+r.Intn(i), i)
@@ -576,6 +647,8 @@ func genAlertSetLine(r *rand.Rand) string {
 		created++
 		if r.Intn(6) == 0 {
 			ops = append(ops, fmt.Sprintf("k%d", []int{0, 0, 3, 4, 7, 255, 1}[r.Intn(7)]))
+		} else if r.Intn(4) == 0 {
+			ops = append(ops, "m"+def())
 		} else {
 			ops = append(ops, "c"+def())
 		}
@@ -643,6 +716,9 @@ func parseAjsOp(s string) (ajsOp, bool) {
 	case 'c':
 		w, i, ok := parseAjsPair(rest)
 		return ajsOp{kind: 'c', w: w, i: i, ty: 1}, ok
+	case 'm':
+		w, i, ok := parseAjsPair(rest)
+		return ajsOp{kind: 'c', w: w, i: i, ty: 2}, ok
 	case 'k':
 		t, ok := alertParseDec(rest)
 		return ajsOp{kind: 'k', w: 1, i: 1, ty: t}, ok && t != 2
@@ -662,9 +738,13 @@ func parseAjsOp(s string) (ajsOp, bool) {
 }
 
 func ajsBody(name string, ty, window, interval uint64, id string) []byte {
-	var m map[string]interface{}
+	if ty == uint64(alertutils.AlertTypeMetrics) {
+		return ajTypedBody(name, ty, window, interval, id)
+	}
+	m := map[string]interface{}{}
 	_ = json.Unmarshal(ajAlertBody(name, window, interval, id), &m)
 	m["alert_type"] = ty
+	m["eval_for"], m["eval_interval"] = window, interval // (the detour through float64 would round the large intervals)
 	b, _ := json.Marshal(m)
 	return b
 }
@@ -773,8 +853,13 @@ func execAlertSet(toks []string) Result {
 			if op.i == 0 {
 				tags["create-with-interval-0"] = true
 			}
-			if op.ty != 1 {
+			if op.ty == 2 {
+				tags["create-metrics-alert"] = true
+			} else if op.ty != 1 {
 				tags["create-with-other-alert-type"] = true
+			}
+			if op.i > 153722867 {
+				tags["interval-beyond-the-scheduler's-range"] = true
 			}
 		case 'u':
 			status = ajPost(alertsHandler.ProcessUpdateAlertRequest, ajsBody(nameOf(op.k), 1, op.w, op.i, idFor(op.k)))
@@ -832,6 +917,11 @@ func execAlertSet(toks []string) Result {
 				fail("alert-job/alert-without-job-after-restart", fmt.Sprintf("%s: stored alert %d (window %d, interval %d) has no cron job after the restart; stored | jobs = %s", where, r.k, r.w, r.i, after))
 			case can && r.jobs == 0 && ans == "ok" && (op.kind == 'c' || op.kind == 'k' || (op.kind == 'u' && op.k == r.k)) && (op.kind == 'u' || r.k == attempt):
 				fail("alert-job/not-exactly-one-job", fmt.Sprintf("%s: the request was accepted but alert %d has no cron job", where, r.k))
+			}
+			// the job just (re-)created from this row runs the row's evaluator at the row's interval (a row rewritten
+			// behind the API keeps its old job until the next restart: not judged)
+			if r.jobs == 1 && ans != "ref" && (op.kind == 'R' || ((op.kind == 'c' || op.kind == 'k') && r.k == attempt) || (op.kind == 'u' && op.k == r.k)) {
+				ajCheckJob(idOf[r.k], alertutils.AlertType(r.ty), r.i, fail, where)
 			}
 		}
 		if op.kind == 'R' && unsched {
